@@ -163,6 +163,40 @@ def gen_framelen_case(r, target=None, proto=None):
     hdr = ["c01", proto, str(r.randrange(4)), str(code), str(r.randrange(65536)), "0"]
     return hdr, ops
 
+
+def gen_bins_case(r):
+    """coap_insert_option on a parsed datagram: (old delta, new delta) of the following option
+    aimed at all six classes of the header patch, value lengths of both options on the
+    extension boundaries, payload present or not"""
+    prev = r.choice([0, 0, 1, 11, 300, 2000])
+    d_old = r.choice([1, 2, 12, 13, 14, 20, 268, 269, 270, 300, 1000, 40000])
+    nxt = prev + d_old
+    if nxt > 65535:
+        nxt = 65535
+        d_old = nxt - prev
+    d_new = r.choice([1, 2, 12, 13, 14, 268, 269, 270, d_old, max(1, d_old - 1), r.randint(1, d_old)])
+    d_new = max(1, min(d_new, d_old))
+    n = nxt - d_new
+    opts = []
+    if prev and r.random() < 0.8:
+        opts.append((prev, rbytes(r, r.choice([0, 1, 13]))))
+        if r.random() < 0.3:
+            opts.append((prev, rbytes(r, 2)))
+    elif prev:
+        d_old = nxt
+        n = max(0, nxt - d_new)
+    opts.append((nxt, rbytes(r, r.choice([0, 1, 12, 13, 14, 268, 269, 270]))))
+    if r.random() < 0.5:
+        opts.append((nxt + r.choice([0, 1, 13, 269]), rbytes(r, r.choice([0, 3]))))
+    opts = [(k, v) for k, v in opts if k <= 65535]
+    payload = rbytes(r, r.choice([0, 0, 1, 5, 300]))
+    tok = rbytes(r, r.choice([0, 1, 8, 13, 269]))
+    msg = py_serialize("udp", r.randrange(4), r.choice([1, 2, 69]), r.randrange(65536), tok, opts, payload)
+    vl = r.choice([0, 1, 12, 13, 14, 268, 269, 270])
+    if r.random() < 0.1:
+        n = r.choice([nxt, nxt + 1, 65535])      # not below max_opt: the append path
+    return "bins %s %d %s" % (msg.hex(), n, btok(r, vl))
+
 # ---------------------------------------------------------------- byte strings for C03 / C02
 
 def py_ext(x):
